@@ -5,7 +5,10 @@ package mc
 // the property statements and doubles as a monitor: a client packet the
 // specification forbids is recorded as a protocol violation.
 
-import "fmt"
+import (
+	"fmt"
+	"sort"
+)
 
 type fwd struct {
 	QoS    int
@@ -264,7 +267,13 @@ func (s *bsession) idFree(id uint16) bool {
 // broker alive, so this is only used for bookkeeping).
 func (b *broker) summary() string {
 	s := ""
-	for id, sess := range b.sessions {
+	ids := make([]string, 0, len(b.sessions))
+	for id := range b.sessions {
+		ids = append(ids, id)
+	}
+	sort.Strings(ids)
+	for _, id := range ids {
+		sess := b.sessions[id]
 		s += fmt.Sprintf("%s:rel%d out[", id, len(sess.awaitRel))
 		for _, m := range sess.out {
 			s += fmt.Sprintf("%x/%d ", m.id, m.state)
